@@ -50,3 +50,16 @@ From KV Require Import StateGen StateBase StateImportProofs StateTokensProofs St
 Theorem C03_state_as_modelled : state_import = modelled_state_import /\ state_tokens = modelled_state_tokens /\ state_export = modelled_state_export.
 Proof. exact (conj state_import_as_modelled (conj state_tokens_as_modelled state_export_as_modelled)). Qed.
 Print Assumptions C03_state_as_modelled.
+
+(* same grid: when every spine is selected, the body of the export is the grid of the stages - one cell per node of the
+   stage, in order - with exactly the empty rows (global-comment stages) and the all-null rows removed; nothing is
+   invented, dropped or moved to another line or column.  For every document, stage range and option set. *)
+From KV Require Import Importer Exporter ExporterProofs.
+Theorem C03_export_is_the_stage_grid : forall d o n a,
+  (forall k id, k < n -> In id (nth (a + k) (d_stages d) []) -> spine_selected o (header_type d id) = true) ->
+  forall rows, main_rows d o a n = Ok rows ->
+  exists cells, (forall k, k < n -> row_cells d (o_cats o) (o_enc o) (nth (a + k) (d_stages d) []) = Ok (cells k)) /\
+                rows = filter kept_row (map cells (seq 0 n)) /\
+                (forall k, k < n -> List.length (cells k) = List.length (nth (a + k) (d_stages d) [])).
+Proof. exact full_selection_grid. Qed.
+Print Assumptions C03_export_is_the_stage_grid.
